@@ -158,3 +158,26 @@ void h_chain(void){
   for (int q = 0; q < 2 * CH_N; q++) if (q >= a_nd * a_no) __CPROVER_assert(TSG_SAME(jac[q], in[q]), "L10b-grid nothing beyond the outputs x dimensions entries is written");
   __CPROVER_assert(0, "VACUITY-CANARY");
 }
+
+//@ harness h_domain_inside
+/* C10: the predicate of getDomainInside() accepts exactly the points of the transformed domain of the rule family:
+ *   Hermite: everything;  Laguerre: x_i >= a_i (0 without a transform);  otherwise a_i <= x_i <= b_i ([0,1] Fourier, [-1,1] else, without a transform). */
+void h_domain_inside(void){
+  TSGT s; s.dims = nondet_int(); __CPROVER_assume(s.dims >= 1 && s.dims <= TSG_NDIM);
+  s.rule = (TypeOneDRule) nondet_int(); __CPROVER_assume(s.rule >= rule_none && s.rule <= rule_fourier);
+  bool a_set = nondet_bool(); s.domain_transform_a_size = a_set ? (size_t) s.dims : 0; s.domain_transform_b_size = s.domain_transform_a_size; s.conformal_asin_power_size = 0;
+  double x[TSG_NDIM];
+  for (int d = 0; d < TSG_NDIM; d++) { s.domain_transform_a[d] = nondet_double(); s.domain_transform_b[d] = nondet_double(); x[d] = nondet_double();
+    __CPROVER_assume(x[d] == x[d] && s.domain_transform_a[d] == s.domain_transform_a[d] && s.domain_transform_b[d] == s.domain_transform_b[d]); }
+  bool got = getDomainInside_apply(&s, x, (size_t) s.dims);
+  bool expect = true;
+  for (int d = 0; d < TSG_NDIM; d++) if (d < s.dims) {
+    if (FAM_HERMITE(s.rule)) continue;
+    double lo = a_set ? s.domain_transform_a[d] : ((FAM_LAGUERRE(s.rule) || s.rule == rule_fourier) ? 0.0 : -1.0);
+    double hi = a_set ? s.domain_transform_b[d] : (s.rule == rule_fourier ? 1.0 : 1.0);
+    if (x[d] < lo) expect = false;
+    if (!FAM_LAGUERRE(s.rule) && x[d] > hi) expect = false;
+  }
+  __CPROVER_assert(got == expect, "C10 getDomainInside(): the predicate accepts exactly the points of the (transformed) domain of the rule family");
+  __CPROVER_assert(0, "VACUITY-CANARY");
+}
